@@ -507,6 +507,20 @@ class BuiltinMixin:
             self.trusted_used.add("set.add: membership of the new set = old membership or == the added element (library axiom)")
             res = self.store_back(st, target, r, node)
             return [(s_, r_[1] if r_ else PyC(None)) for s_, r_ in res]
+        if name == "remove" and isinstance(recv, PyList) and recv.kind == "list" and isinstance(node, ast.Call) and isinstance(node.func, ast.Attribute) \
+                and all(isinstance(i, PyC) for i in recv.items) and isinstance(args[0], PyC):
+            # list.remove of a constant from a list of constants: decided here (first == occurrence; ValueError if none)
+            items = list(recv.items)
+            for j, it in enumerate(items):
+                try:
+                    hit = (it.obj == args[0].obj) is True
+                except Exception:
+                    hit = False
+                if hit:
+                    del items[j]
+                    res = self.store_back(st, node.func.value, PyList(items, "list"), node)
+                    return [(s_, r_[1] if r_ else PyC(None)) for s_, r_ in res]
+            return self.raising(st, None, [(ValueError, TRUE)], node)[:-1]
         if name in ("append", "extend", "insert") and (isinstance(recv, PyList) or (isinstance(recv, Val) and recv.kind == "list")) \
                 and isinstance(node, ast.Call) and isinstance(node.func, ast.Attribute):
             # list mutators: a pure update of the value plus a write-back to the place the list was read from
